@@ -319,13 +319,45 @@ func c06Main(args []string) {
 		}
 	}
 	run.Count("family:cases", int64(n))
+	// A decoder that dies the same way on hundreds of cases (runaway recursion: each death costs ~10 s and a
+	// worker restart) has made its point after three: later worker generations skip the remaining cases of that
+	// (format, forced?) class, counted as skipped. The verdict is already a violation by then.
+	var fatalMu sync.Mutex
+	fatalCount := map[string]int{}
+	skipEnv := func() []string {
+		fatalMu.Lock()
+		defer fatalMu.Unlock()
+		var sk []string
+		for cls, c := range fatalCount {
+			if c >= 3 {
+				sk = append(sk, cls)
+			}
+		}
+		sort.Strings(sk)
+		return []string{"VERIF_C06_SKIP=," + strings.Join(sk, ",") + ","}
+	}
+	skipList := os.Getenv("VERIF_C06_SKIP")
+	classOf := func(c c06Case) string { return fmt.Sprintf("%s|force=%v", c.Format, c.Force) }
 	isoRun(run, isoSpec{
 		NJobs:       n,
 		WatchdogSec: 10,
 		MaxRSS:      1 << 30,
-		Do:          func(run *ev.Run, k int) { c06Run(run, get(k)) },
+		ExtraEnv:    skipEnv,
+		Do: func(run *ev.Run, k int) {
+			c := get(k)
+			if skipList != "" && strings.Contains(skipList, ","+classOf(c)+",") {
+				run.Count("cases:skipped-after-3-fatal-deaths:"+classOf(c), 1)
+				return
+			}
+			c06Run(run, c)
+		},
 		OnDeath: func(run *ev.Run, k int, kind string, tail string) {
 			c := get(k)
+			if kind != "oom" && kind != "watchdog" && kind != "killed" {
+				fatalMu.Lock()
+				fatalCount[classOf(c)]++
+				fatalMu.Unlock()
+			}
 			switch {
 			case kind == "oom" || kind == "watchdog" || kind == "killed":
 				run.Inconclusive(kind + ":" + c.Format)
